@@ -48,8 +48,9 @@ func c11Replay(o *Out, in map[string]interface{}) error {
 func c11Stream(o *Out, rng *rand.Rand, n int) {
 	ih := url.QueryEscape("c11-infohash-0123456")
 	base := "/announce?info_hash=" + ih + "&peer_id=c11-peer-id-01234567&port=6881&left=1&downloaded=0&uploaded=0"
-	remotes := []string{"192.0.2.7:6881", "[2001:db8::1]:6881", "[::ffff:192.0.2.9]:443", "10.1.2.3:1", "[::1]:80"}
-	supplied := []string{"", "0.0.0.0", "::", "198.51.100.4", "2001:db8::99", "::ffff:198.51.100.5", "garbage", "1.2.3", "256.1.1.1", "%31.2.3.4"}
+	remotes := []string{"192.0.2.7:6881", "[2001:db8::1]:6881", "[::ffff:192.0.2.9]:443", "10.1.2.3:1", "[::1]:80", "[64:ff9b::c633:6404]:6881"}
+	supplied := []string{"", "0.0.0.0", "::", "198.51.100.4", "2001:db8::99", "::ffff:198.51.100.5", "garbage", "1.2.3", "256.1.1.1", "%31.2.3.4",
+		"64:ff9b::c633:6405", "2002:c633:6404::1"}
 	keys := []string{"ip", "ipv4", "ipv6", "IP", "Ipv4", "\xc4\xb0p"}
 	hdrVals := []string{"", "203.0.113.9", "2001:db8::77", "::ffff:203.0.113.10", "garbage"}
 	// HTTP grid: source x supplied x key x spoofing x header
@@ -98,9 +99,9 @@ func c11Stream(o *Out, rng *rand.Rand, n int) {
 	}
 	// UDP grid: source x field x action x spoofing
 	g := c07Gen{rng}
-	srcs := [][]byte{{192, 0, 2, 7}, net.ParseIP("2001:db8::1"), net.ParseIP("::ffff:192.0.2.9"), {10, 0, 0, 1}, net.ParseIP("::1")}
+	srcs := [][]byte{{192, 0, 2, 7}, net.ParseIP("2001:db8::1"), net.ParseIP("::ffff:192.0.2.9"), {10, 0, 0, 1}, net.ParseIP("::1"), net.ParseIP("64:ff9b::c633:6404")}
 	f4 := [][]byte{{0, 0, 0, 0}, {198, 51, 100, 4}, {255, 255, 255, 255}, {0, 0, 0, 1}, {1, 0, 0, 0}}
-	f16 := [][]byte{make([]byte, 16), net.ParseIP("2001:db8::99"), net.ParseIP("::ffff:198.51.100.5"), net.ParseIP("::1"), net.ParseIP("100::")}
+	f16 := [][]byte{make([]byte, 16), net.ParseIP("2001:db8::99"), net.ParseIP("::ffff:198.51.100.5"), net.ParseIP("::1"), net.ParseIP("100::"), net.ParseIP("64:ff9b::c633:6405")}
 	// BEP 41 URL data naming an address the way the HTTP frontend's parameters do: the UDP frontend takes the address
 	// from the datagram's source or (spoofing allowed) from the packet's IP field - never from the request string
 	urlData := []string{"", "/announce?ip=2001:db8::bad:cafe", "/?ipv6=2001:db8::bad:cafe", "/?ipv4=203.0.113.9", "/announce?ip=203.0.113.9&ipv6=2001:db8::7",
